@@ -9,7 +9,7 @@ from vf.props import track_common as tc
 LEVEL = "exploration"
 RULE = ("(a) exhaustive presence patterns of K<=3 animals over F<=4 frames (each frame any subset, 4096+ patterns) crossed with tracker configurations "
         "{fixed_window,local_queues}x{hungarian,greedy}x{keypoints+oks,centroids+euclid,bboxes+iou}x{mean,max}x window{1,2,3,5} x threshold{0,0.5} "
-        "(quick: one rotating configuration per pattern; thorough: 12 per pattern incl. every candidate/matching/feature/reduction combination); (b) random hostile histories K<=5, F<=15 with bursts, empty frames, lone animals, "
+        "(quick: one rotating configuration per pattern; thorough: 48 per pattern incl. every candidate/matching/feature/reduction combination); (b) random hostile histories K<=5, F<=15 with bursts, empty frames, lone animals, "
         "late arrivals, absences longer than the window, shuffled detection order, overlapping and identical poses, NaN nodes, scores around the threshold. "
         "non-trivial = history with >=2 non-empty frames in which the number of detections changes; distinct by (presence pattern, configuration)")
 ASSUMPTIONS = ["every detection has at least one visible node (an all-NaN pose has no features)", "a fresh Tracker per history",
@@ -18,7 +18,7 @@ SHARDS = {"quick": 4, "thorough": 16}
 BUDGET = {"quick": 110, "thorough": 1500}
 TIMEOUT = {"quick": 600, "thorough": 3000}
 SELF_SHARDED = True
-N_RANDOM = {"quick": 2500, "thorough": 60000}
+N_RANDOM = {"quick": 2500, "thorough": 400000}
 CONFIGS = list(tc.all_configs())
 
 
@@ -100,7 +100,7 @@ def random_history(r):
 def gen_cases(ctx):
     idx = 0
     r = ctx.rng(9, 0)
-    per_pattern = 1 if ctx.tier == "quick" else 12
+    per_pattern = 1 if ctx.tier == "quick" else 48
     for K, F in [(1, 4), (2, 4), (3, 3), (3, 4)]:
         for pattern in itertools.product(range(2 ** K), repeat=F):
             for j in range(per_pattern):
